@@ -375,6 +375,7 @@ type scriptReader struct {
 	chunk   int           // > 0: a working source that never hands out more than this many bytes per Read
 	delay   time.Duration // > 0: a working source that is slow to answer (every Read takes this long)
 	gc      bool          // collections (and finalizers) run between the pieces of a delivery
+	gave    int           // bytes handed out since the script was (re)started, i.e. to the current call
 }
 
 func (s *scriptReader) produce(k int) []byte {
@@ -428,7 +429,7 @@ func (s *scriptReader) Read(p []byte) (int, error) {
 	if s.delay > 0 {
 		time.Sleep(s.delay)
 	}
-	if s.gc && s.total > 0 {
+	if s.gc && s.gave > 0 { // only once this call holds bytes: a finalizer runs once, and it should find something to wipe
 		settle()
 	}
 	if st.Err == "panic" { // a source with a defect of its own: it panics instead of returning
@@ -440,9 +441,14 @@ func (s *scriptReader) Read(p []byte) (int, error) {
 	b := s.produce(k)
 	copy(p, b)
 	s.total += k
+	s.gave += k
 	err := errOfKind(st.Err)
 	if !s.quiet {
-		emit(Event{"op": "Read", "asked": len(p), "gave": k, "bytes": ints(b), "errkind": st.Err})
+		e := Event{"op": "Read", "asked": len(p), "gave": k, "bytes": ints(b), "errkind": st.Err}
+		if s.gc {
+			e["gc"] = true // (a re-execution of this unit lets the collector run at the same place)
+		}
+		emit(e)
 	}
 	return k, err
 }
